@@ -20,6 +20,8 @@ type Profile struct {
 	RandSafe bool
 	// SQL adds table structs to the analysed file (see sql.go).
 	SQL bool
+	// OnlySQL analyses the table file only.
+	OnlySQL bool
 	// Routes adds an Echo-style route file.
 	Routes   bool
 	MinSub   int
@@ -94,14 +96,14 @@ const (
 )
 
 type named struct {
-	pkg     *pkg
-	name    string
-	kind    kind
-	basic   string // for enums / named basics: underlying
-	jsonKey bool   // usable as JSON map key
-	cmp     bool   // comparable
-	hasUnion bool  // value contains a union somewhere (cannot cross packages for wrappers)
-	intEnum bool
+	pkg      *pkg
+	name     string
+	kind     kind
+	basic    string // for enums / named basics: underlying
+	jsonKey  bool   // usable as JSON map key
+	cmp      bool   // comparable
+	hasUnion bool   // value contains a union somewhere (cannot cross packages for wrappers)
+	intEnum  bool
 }
 
 type pkg struct {
@@ -113,20 +115,22 @@ type pkg struct {
 }
 
 type file struct {
-	pkg     *pkg
-	name    string
-	body    strings.Builder
-	imports map[string]string // path -> name
+	analysed bool
+	pkg      *pkg
+	name     string
+	body     strings.Builder
+	imports  map[string]string // path -> name
 }
 
 type gen struct {
-	r       *kernel.Rand
-	prof    Profile
-	prog    *Program
-	pkgs    []*pkg
-	root    *pkg
-	counter int
-	sawUnion bool
+	r          *kernel.Rand
+	prof       Profile
+	prog       *Program
+	pkgs       []*pkg
+	root       *pkg
+	counter    int
+	sawUnion   bool
+	wideBasics bool
 }
 
 var randBasics = []string{"bool", "int", "int32", "int64", "uint8", "int8", "int16", "uint16", "float64", "string"}
@@ -138,7 +142,7 @@ func (g *gen) fresh(prefix string) string {
 }
 
 func (g *gen) basic() string {
-	if g.prof.RandSafe || g.r.Chance(4, 5) {
+	if g.prof.RandSafe || !g.wideBasics || g.r.Chance(4, 5) {
 		return kernel.Pick(g.r, randBasics)
 	}
 	return kernel.Pick(g.r, moreBasics)
@@ -439,7 +443,11 @@ func (g *gen) declStruct(f *file, allowUnion bool) *named {
 			t.hasUnion = true
 		}
 		tag := ""
-		switch r.Intn(12) {
+		tagCase := r.Intn(12)
+		if !exported(fname) {
+			tagCase = 11
+		}
+		switch tagCase {
 		case 0:
 			tag = fmt.Sprintf(" `json:\"%s_tag\"`", strings.ToLower(fname))
 		case 1:
@@ -534,7 +542,11 @@ func (g *gen) declGeneric(f *file) {
 func (g *gen) fillFile(f *file, n int, unions bool) {
 	r := g.r
 	for i := 0; i < n; i++ {
-		switch w := r.Intn(20); {
+		w := r.Intn(20)
+		if w == 10 && f.analysed {
+			w = 15 // generic declarations are supported only outside the analysed file
+		}
+		switch {
 		case w < 4:
 			g.declEnum(f)
 		case w < 8:
@@ -557,6 +569,7 @@ func Generate(r *kernel.Rand, name string, prof Profile) *Program {
 	mod := "example.com/vs/" + name
 	g.prog = &Program{Name: name, Module: mod, Files: map[string]string{}}
 	g.prog.Files["go.mod"] = "module " + mod + "\n\ngo 1.23\n"
+	g.wideBasics = r.Chance(1, 3)
 	nsub := r.Range(prof.MinSub, prof.MaxSub)
 	maxDecls := prof.MaxDecls
 	if maxDecls == 0 {
@@ -593,17 +606,22 @@ func Generate(r *kernel.Rand, name string, prof Profile) *Program {
 		nAnalysed = 2
 	}
 	for i := 0; i < nAnalysed; i++ {
-		f := &file{pkg: root, name: fmt.Sprintf("models%d.go", i), imports: map[string]string{}}
+		f := &file{pkg: root, name: fmt.Sprintf("models%d.go", i), imports: map[string]string{}, analysed: true}
 		before := len(root.types)
 		g.fillFile(f, r.Range(3, maxDecls), true)
-		if prof.SQL && i == 0 {
-			g.sqlTables(f)
-		}
 		for _, t := range root.types[before:] {
 			g.prog.Types = append(g.prog.Types, t.name)
 		}
 		files = append(files, f)
 		g.prog.Analyse = append(g.prog.Analyse, f.name)
+	}
+	if prof.SQL {
+		tf, sf := g.sqlFiles()
+		files = append(files, tf, sf)
+		if prof.OnlySQL {
+			g.prog.Analyse = nil
+		}
+		g.prog.Analyse = append(g.prog.Analyse, tf.name)
 	}
 	for _, f := range files {
 		g.prog.Files[f.name] = f.render()
